@@ -203,6 +203,9 @@ def step (d : D) (o : Op) : D × String :=
     (d, s!"=> goat head={toHex d.goat.head.blockHash}|{d.goat.head.blockNumber}|{toHex d.goat.head.parentHash} beacon={toHex d.goat.beaconRoot}")
   | "a.blockstart" => (startBlock d (o.str "halt" == "1"), "=> ok")
   | "a.det" => (d, "=> ok")
+  -- the application's own PrepareProposal handler built a proposal from its mempool: it always answers (the proposal
+  -- itself follows as an `a.process` operation); nothing is written
+  | "a.prepare" => (d, "=> ok")
   | "a.export" =>
     -- does the locking + relayer state survive export → import (GoatModel.Genesis)?  Compared with the real
     -- application's verdict whenever that could be observed (`lrobs=1`)
